@@ -7,9 +7,10 @@
  * listed here once and havocked by the generated entry point before the harness body runs
  * (v_havoc_ghosts, vcommon.h).  A ghost that is not in this list would silently be 0. */
 #define GHOSTS(X) \
-    X(size_t, gk) X(size_t, gj) X(size_t, gi) \
+    X(size_t, gk) X(size_t, gj) X(size_t, gi) X(size_t, g_canary) \
     X(size_t, g_cap) X(_Bool, g_wrapped) \
-    X(size_t, g_trim_oldlen)
+    X(size_t, g_trim_oldlen) \
+    X(size_t, g_cmp_n) X(const void *, g_last_key) X(int, g_last_res) X(const void *, g_wit_key) X(int, g_wit_res)
 #define GHOST_DECL(T, n) T n;
 GHOSTS(GHOST_DECL)
 #ifndef VCAP
@@ -42,4 +43,10 @@ GHOSTS(GHOST_DECL)
 
 
 
+/* list/table views (used by loop invariants) */
+#define LIST_POS(l, i) (((l)->first + (i) >= (l)->max_size) ? (l)->first + (i) - (l)->max_size : (l)->first + (i))
+#define VIEW(l, i) ((l)->elements[LIST_POS(l, i)])
+#define TL(t) (&(t)->list)
+#define CMP_LOG_ASSIGNS g_cmp_n, g_last_key, g_last_res, g_wit_key, g_wit_res
+#define NPAIRS(t) (TL(t)->current_size / 2)
 #endif
